@@ -294,6 +294,43 @@ identity key is our own. It is recomputed from `p2p/encrypt.go` on every run; wh
 theorem and `auth` / `no_mitm` no longer check and `reflection_witness` is the failing input. -/
 theorem rejects_own_key : Gen.Transport.rejectsOwnKey = true := by decide
 
+/-- the signature cache consulted by the challenge check: its key is the full triple
+public key ‖ message ‖ signature (the message offset IS advanced before the signature is copied), and
+`CheckCache` looks up and stores exactly that key (same source as pinned under C05) -/
+theorem sigcache_key_source :
+    Gen.Transport.src_sigCacheKey = "pk := bt.PublicKey.Bytes(); totalLen := len(pk) + len(bt.Message) + len(bt.Signature); b, offset := make([]byte, totalLen), 0; copy(b[offset:], pk); offset += len(pk); copy(b[offset:], bt.Message); offset += len(bt.Message); copy(b[offset:], bt.Signature); return string(b)" ∧
+    Gen.Transport.src_checkCache = "if DisableCache { return false, func(...){} }; cacheTuple := BatchTuple{PublicKey: pk, Message: msg, Signature: sig}; key := cacheTuple.Key(); addToCache = func(...){SignatureCache.Set(key, []byte{0})}; _, notFoundErr := SignatureCache.Get(key); found = notFoundErr == nil; return" :=
+  ⟨rfl, rfl⟩
+
+/-- within one signature scheme (fixed key and signature lengths) the cache key determines the triple -/
+theorem sigcache_key_injective (pk pk' m m' sg sg' : Bytes) (hp : pk.length = pk'.length) (hs : sg.length = sg'.length)
+    (h : cacheKey pk m sg = cacheKey pk' m' sg') : pk = pk' ∧ m = m' ∧ sg = sg' := by
+  unfold cacheKey at h
+  rw [List.append_assoc, List.append_assoc] at h
+  obtain ⟨h1, h2⟩ := List.append_inj h hp
+  have hl : (m ++ sg).length = (m' ++ sg').length := by rw [h2]
+  have hm : m.length = m'.length := by simp at hl; omega
+  obtain ⟨h3, h4⟩ := List.append_inj h2 hm
+  exact ⟨h1, h3, h4⟩
+
+/-- **sigcache_hit_sound**: a cache hit means this very (key, message, signature) triple was verified
+before — a genuine signature over ANOTHER message (a VRF seed, another session's challenge) that the
+node has verified earlier cannot make the challenge check of this session succeed. This is what makes the
+exact-match verification of `Party.finish`, and with it `auth`, a description of the code with a warm cache. -/
+theorem sigcache_hit_sound (remembered : List (Bytes × Bytes × Bytes)) (pk m sg : Bytes) (lp ls : Nat)
+    (hrem : ∀ t ∈ remembered, t.1.length = lp ∧ t.2.2.length = ls) (hp : pk.length = lp) (hs : sg.length = ls)
+    (h : cacheHit remembered pk m sg = true) : (pk, m, sg) ∈ remembered := by
+  unfold cacheHit at h
+  simp only [List.contains_iff_mem, List.mem_map] at h
+  obtain ⟨⟨pk', m', sg'⟩, hmem, hk⟩ := h
+  obtain ⟨l1, l2⟩ := hrem _ hmem
+  obtain ⟨rfl, rfl, rfl⟩ := sigcache_key_injective pk' pk m' m sg' sg (by simpa [hp] using l1) (by simpa [hs] using l2) hk
+  exact hmem
+
+/-- non-vacuity, and what a key that drops the message would break: same key, same signature, other 4-byte message -/
+example : cacheHit [([1, 2], [7, 7, 7, 8], [5, 5, 5, 5, 5])] [1, 2] [7, 7, 7, 8] [5, 5, 5, 5, 5] = true ∧
+    cacheHit [([1, 2], [7, 7, 7, 8], [5, 5, 5, 5, 5])] [1, 2] [9, 9, 9, 9] [5, 5, 5, 5, 5] = false := by decide
+
 /-- a successful handshake always records the public key of some scalar -/
 theorem accepted_is_public_key {ro : Bool} {p : Party} {x : Nat} {f1 f2 t : Term}
     (h : p.finish ro (pk (atom x)) f1 f2 = .ok t) : ∃ j, t = pk (atom j) := by
@@ -311,6 +348,8 @@ theorem auth (W : World) (sA : Session) (hA : sA ∈ W.sessions) {f1 f2 : Term}
     (hsec : W.sec j) :
     ∃ s ∈ W.sessions, s.party.id = j ∧ s.party.eph = sA.peer ∧ s.peer = sA.party.eph ∧
       s.party.net = sA.party.net ∧ s.party.chain = sA.party.chain := by
+  -- the exact-match signature check of `Party.finish` describes `VerifyBytes` behind its cache (`sigcache_hit_sound`)
+  have _cache := sigcache_key_source
   rcases auth_core W _ sA hA h1 h2 hacc hsec with h | ⟨hro, _, _⟩
   · exact h
   · rw [rejects_own_key] at hro; exact absurd hro (by decide)
